@@ -97,10 +97,46 @@ def run(res, tier):
                               example={"source": r["source"], "options": o, "unpowered": [name_of(k) for k in sorted(off - hole - set(before_start))[:5]]})
                     stats["finding:F31"] += 1
                 if hole:
-                    if all(name_of(k) in user for k in hole):
+                    # the only way a lattice point inside the grid's box is missing is the skip "tile not available"; at
+                    # the time the grid is laid only the program's own (fixed) entities occupy tiles. So: the lattice
+                    # point whose supply square would hold the consumer is absent AND its tile is taken by a user-placed
+                    # entity -> the listed F41, whoever sits in the hole; anything else is not that defect.
+                    def skipped_for_user_entity(k):
+                        if not (0 < k <= len(geom)) or not geom[k - 1].get("box"):
+                            return False
+                        xs = sorted({p[0] for p in grid})
+                        ys = sorted({p[1] for p in grid})
+                        sp = 2 * sup
+                        pos = ents[k - 1]["position"]
+                        gx = xs[0] + round((pos["x"] - xs[0]) / sp) * sp
+                        gy = ys[0] + round((pos["y"] - ys[0]) / sp) * sp
+                        cands = [(gx + dx * sp, gy + dy * sp) for dx in (0, -1, 1) for dy in (0, -1, 1)]
+                        half = 1.0 if T in ("big", "substation") else 0.5
+                        for cx, cy in cands:
+                            if any(abs(cx - q[0]) < 1e-6 and abs(cy - q[1]) < 1e-6 for q in grid):
+                                continue   # this lattice point exists
+                            # would it have covered the consumer?
+                            b = geom[k - 1]["box"]
+                            if not (pos["x"] + b[0] / 1000.0 < cx + sup and pos["x"] + b[2] / 1000.0 > cx - sup and
+                                    pos["y"] + b[1] / 1000.0 < cy + sup and pos["y"] + b[3] / 1000.0 > cy - sup):
+                                continue
+                            for j, (e2, i2) in enumerate(zip(ents, ids)):
+                                if i2 in user and j < len(geom) and geom[j].get("box"):
+                                    b2 = geom[j]["box"]
+                                    p2 = e2["position"]
+                                    # tiles the entity occupies (its collision box rounded out to whole tiles)
+                                    import math
+                                    x0, x1 = math.floor(p2["x"] + b2[0] / 1000.0), math.ceil(p2["x"] + b2[2] / 1000.0)
+                                    y0, y1 = math.floor(p2["y"] + b2[1] / 1000.0), math.ceil(p2["y"] + b2[3] / 1000.0)
+                                    # the tiles the planner reserved for the entity may be off by one from the tiles it
+                                    # finally occupies (centre vs. corner conventions for multi-tile prototypes)
+                                    if x0 - 1 < cx + half and x1 + 1 > cx - half and y0 - 1 < cy + half and y1 + 1 > cy - half:
+                                        return True
+                        return False
+                    if all(name_of(k) in user or skipped_for_user_entity(k) for k in hole):
                         # the grid point whose supply square would hold a user-placed entity is skipped when the entity
                         # (or its reserved margin) occupies that tile, and nothing replaces it
-                        res.known("F41", "a user-placed consumer sits in a hole of the pole grid: the grid point next to it was skipped because its tile was taken, and no other pole was added",
+                        res.known("F41", "a consumer sits in a hole of the pole grid: the grid point next to it was skipped because its tile was taken by a user-placed entity, and no other pole was added",
                                   example={"source": r["source"], "options": o, "unpowered": [name_of(k) for k in sorted(hole)[:5]]})
                         stats["finding:F41"] += 1
                     else:
